@@ -303,7 +303,7 @@ def long_sequences(ctx):
         t2["events"][i]["wire"] = t2["events"][i]["wire"][:-1] + ["CH", "LF"]
         t2["events"] = t2["events"][:i + 1]
         fal.append(t2)
-    if fal:
+    if fal and ctx.conforming() and not rej2:
         acc3, _ = tracecheck.validate(wd, "TraceSseWire", fal, constants=dict(K, Strict=True))
         if acc3:
             raise common.MachineryError("binding self-test: %d falsified event-stream traces accepted by TraceSseWire" % acc3)
